@@ -6,6 +6,7 @@ import (
 	"net"
 	"net/http"
 	"strings"
+	"sync/atomic"
 	"time"
 
 	"verifharness/kit"
@@ -24,6 +25,7 @@ type c03client struct {
 	name  string
 	ended chan struct{} // closed when the client observed the end of its connection
 	got   chan struct{} // closed when the client received media
+	rx    int64         // media items received so far (atomic)
 	close func()
 }
 
@@ -31,6 +33,7 @@ func c03Attach(srv *kit.Server, path, kind string) (*c03client, error) {
 	cl := &c03client{name: kind, ended: make(chan struct{}), got: make(chan struct{})}
 	gotOnce := false
 	markGot := func() {
+		atomic.AddInt64(&cl.rx, 1)
 		if !gotOnce {
 			gotOnce = true
 			close(cl.got)
@@ -64,9 +67,15 @@ func c03Attach(srv *kit.Server, path, kind string) (*c03client, error) {
 			}
 			go func() {
 				buf := make([]byte, 65536)
-				us.SetReadDeadline(time.Now().Add(20 * time.Second))
-				if n, _, err := us.ReadFromUDP(buf); err == nil && n > 0 {
-					markGot()
+				for {
+					us.SetReadDeadline(time.Now().Add(120 * time.Second))
+					n, _, err := us.ReadFromUDP(buf)
+					if err != nil {
+						return
+					}
+					if n > 0 {
+						markGot()
+					}
 				}
 			}()
 		} else if _, err := rc.Play(srv.URL(path), 0, 2); err != nil {
@@ -181,6 +190,141 @@ func c03Attach(srv *kit.Server, path, kind string) (*c03client, error) {
 	return cl, nil
 }
 
+// c03ReplacedClientStops: a stream is displaced by a second publisher on the same path but stays alive (its publisher is
+// still connected, consumers attached). Consumers of the OLD stream then stop one by one: each must be released from
+// the old stream (count back to zero) and stopping them must not touch the consumers of the NEW stream.
+func c03ReplacedClientStops(c *kit.Ctx, srv *kit.Server, n int) {
+	path := fmt.Sprintf("/c03svc/r%d-%d", c.Shard, n)
+	scen := "service/replaced-then-old-consumers-stop"
+	c.Pre("C03 " + scen)
+	base := kit.Snapshot()
+	pub1, _, err := kit.StartPublisher(srv, path, "", "", false, 2*time.Millisecond)
+	if err != nil {
+		c.Inconclusive("service part: publisher: " + err.Error())
+		return
+	}
+	defer pub1.Stop()
+	waitUntil(func() bool { return media.Get(path) != nil }, 5*time.Second)
+	s1 := media.Get(path)
+	if s1 == nil {
+		c.Inconclusive("service part: stream did not appear")
+		return
+	}
+	kinds := []string{"rtsp-tcp", "ws-rtsp", "wsp", "http-flv", "ws-flv", "rtsp-udp"}
+	var olds []*c03client
+	for _, k := range kinds {
+		cl, err := c03Attach(srv, path, k)
+		if err != nil {
+			c.Inconclusive("service part: attach " + k + ": " + err.Error())
+			continue
+		}
+		olds = append(olds, cl)
+	}
+	defer func() {
+		for _, cl := range olds {
+			cl.close()
+		}
+	}()
+	for _, cl := range olds {
+		select {
+		case <-cl.got:
+		case <-time.After(60 * time.Second):
+			c.Inconclusive("service part: no media on " + cl.name)
+			return
+		}
+	}
+	pub2, _, err := kit.StartPublisher(srv, path, "", "", false, 2*time.Millisecond)
+	if err != nil {
+		c.Inconclusive("service part: second publisher: " + err.Error())
+		return
+	}
+	defer pub2.Stop()
+	if !waitUntil(func() bool { g := media.Get(path); return g != nil && g != s1 }, 10*time.Second) {
+		c.Inconclusive("service part: second publisher did not displace the first")
+		return
+	}
+	s2 := media.Get(path)
+	// consumers of the new stream, one per consumer list, attached in the same order so that their ids coincide with old ones
+	var news []*c03client
+	for _, k := range []string{"rtsp-tcp", "http-flv"} {
+		cl, err := c03Attach(srv, path, k)
+		if err != nil {
+			c.Inconclusive("service part: attach to new stream " + k + ": " + err.Error())
+			return
+		}
+		news = append(news, cl)
+	}
+	defer func() {
+		for _, cl := range news {
+			cl.close()
+		}
+	}()
+	for _, cl := range news {
+		select {
+		case <-cl.got:
+		case <-time.After(60 * time.Second):
+			c.Inconclusive("service part: no media on new-stream " + cl.name)
+			return
+		}
+	}
+	detail := map[string]interface{}{"scenario": scen, "old_consumers_before": s1.ConsumerCount(), "new_consumers_before": s2.ConsumerCount()}
+	if s1.ConsumerCount() != len(olds) || s2.ConsumerCount() != len(news) {
+		c.Inconclusive(fmt.Sprintf("service part: unexpected consumer counts before the stops: old %d/%d new %d/%d", s1.ConsumerCount(), len(olds), s2.ConsumerCount(), len(news)))
+		return
+	}
+	c.Eval(1)
+	c.Distinct(scen)
+	for i, cl := range olds {
+		cl.close()
+		want := len(olds) - i - 1
+		if !waitUntil(func() bool { return s1.ConsumerCount() <= want }, 8*time.Second) {
+			detail["stopped"], detail["old_consumers_now"], detail["want"] = cl.name, s1.ConsumerCount(), want
+			c.Violation("C03:service:stopped-consumer-still-attached-to-displaced-stream:"+cl.name, detail)
+			break
+		}
+		c.SetAdd("service_old_consumers_released_after_replacement", cl.name)
+	}
+	// the new stream's consumers are untouched: still attached, still receiving
+	marks := make([]int64, len(news))
+	for i, cl := range news {
+		marks[i] = atomic.LoadInt64(&cl.rx)
+	}
+	for i, cl := range news {
+		i, cl := i, cl
+		alive := waitUntil(func() bool {
+			select {
+			case <-cl.ended:
+				return true
+			default:
+			}
+			return atomic.LoadInt64(&cl.rx) > marks[i]+5
+		}, 8*time.Second)
+		ended := false
+		select {
+		case <-cl.ended:
+			ended = true
+		default:
+		}
+		if ended || !alive || s2.ConsumerCount() != len(news) {
+			detail["new_consumer"], detail["ended"], detail["new_consumers_now"] = cl.name, ended, s2.ConsumerCount()
+			c.Violation("C03:service:stopping-old-consumers-disturbed-consumer-of-new-stream:"+cl.name, detail)
+			break
+		}
+	}
+	pub1.Stop()
+	pub2.Stop()
+	for _, cl := range news {
+		cl.close()
+	}
+	if !waitUntil(func() bool {
+		k := kit.Snapshot()
+		return k.Rtsp == base.Rtsp && k.Flv == base.Flv && k.Wsp == base.Wsp && media.Get(path) == nil && s1.ConsumerCount() == 0 && s2.ConsumerCount() == 0
+	}, 8*time.Second) {
+		detail["after"] = kit.Snapshot().String()
+		c.Violation("C03:service:not-back-to-baseline:replaced-then-old-consumers-stop", detail)
+	}
+}
+
 func c03RunService(c *kit.Ctx) {
 	srv := kit.StartServer(false, false, 0)
 	admin, _, code := srv.Login("admin", "admin")
@@ -192,6 +336,10 @@ func c03RunService(c *kit.Ctx) {
 	ends := []string{"publisher-disconnect", "replaced-then-old-publisher-disconnect", "rest-delete", "unregist-all"}
 	n := 0
 	for rep := 0; rep < c.Pick(1, 10); rep++ {
+		n++
+		if c.Mine(n) {
+			c03ReplacedClientStops(c, srv, n)
+		}
 		for _, end := range ends {
 			n++
 			if !c.Mine(n) {
